@@ -5,6 +5,7 @@ package service
 
 import (
 	"net"
+	"time"
 )
 
 func verifRaddr(kind int) net.Addr {
@@ -43,6 +44,9 @@ func verifC18TimedCopy(kinds int) {
 	nc := &natconn{PacketConn: target, cryptoKey: key, metrics: cm, defaultTimeout: defaultNatTimeout}
 	timedCopy(clientAddr, client, nc, noopLogger())
 	verifAssert("C18.timedcopy.reported-once", len(cm.fromTarget) == 1)
+	if len(cm.fromTarget) != 1 {
+		return
+	}
 	got := bodyLen
 	if max := serverUDPBufferSize - saltSize - maxAddrLen; got > max {
 		got = max
@@ -171,4 +175,50 @@ func VH_C18_streamserve_isolation() {
 	}
 	verifAssert("C18.serve.nothing-left", verifBlockedIn("StreamServe") == 0)
 	verifReach("C18.serve.with-panic", panicOn < 3)
+}
+
+// an accept error other than "closed" (here: an accept deadline in the past) is reported to a
+// waiting handle and does not stop the shared listener
+func VH_C18_accept_error_isolation() {
+	ml := NewMultiStreamListener("127.0.0.1:0", nil)
+	h, err := ml.Acquire()
+	verifAssert("C18.accept-error.acquire", err == nil)
+	tl := ml.(*multiStreamListener).ln.(*TCPListener).ln
+	r1 := verifAcceptAsync(h)
+	verifQuiesce()
+	tl.SetDeadline(time.Unix(1, 0)) // accept now fails with a timeout error
+	verifQuiesce()
+	verifAssert("C18.accept-error.delivered-as-error", len(r1) == 1)
+	if len(r1) == 1 {
+		a := <-r1
+		verifAssert("C18.accept-error.not-errclosed", a.err != nil && a.err != net.ErrClosed)
+	}
+	tl.SetDeadline(time.Time{})
+	// the listener is still serving
+	r2 := verifAcceptAsync(h)
+	// natively the accept loop may deliver a few more timeout errors before the reset is seen
+	for i := 0; i < verifRepeat(50); i++ {
+		verifQuiesce()
+		if len(r2) == 1 {
+			a := <-r2
+			if a.err == nil || a.err == net.ErrClosed {
+				r2 <- a
+				break
+			}
+			r2 = verifAcceptAsync(h) // a left-over timeout error from before the reset
+		} else {
+			break
+		}
+	}
+	id := verifDialTCP(h.Addr())
+	verifAssert("C18.accept-error.still-listening", id == 0)
+	verifQuiesce()
+	verifAssert("C18.accept-error.next-connection-served", len(r2) == 1)
+	if len(r2) == 1 {
+		a := <-r2
+		verifAssert("C18.accept-error.next-connection-is-it", a.err == nil && verifTCPConnID(a.conn) == 0)
+	}
+	h.Close()
+	verifQuiesce()
+	verifReach("C18.accept-error.done", true)
 }
